@@ -106,10 +106,10 @@ def fromMapping (cb : Nat) (m : Mapping) : Outcome E64 := do
       if m.copied then .panic "l2.rs:from_mapping:compressed-copied" else
       match m.clusterOffset, m.compressedLength with
       | some off, some len =>
-        if ¬ (len < 2^cb) then .panic "l2.rs:from_mapping:assert-length" else
-        if len = 0 then .panic "l2.rs:from_mapping:length-1-underflow" else
+        if len = 0 then .panic "l2.rs:from_mapping:assert-length-positive" else
         let cob := 62 - (cb - 8)
         let sectors := (len - 1 + off % 512) / 512
+        if ¬ (sectors < 2^(cb - 8)) then .panic "l2.rs:from_mapping:assert-sectors" else
         .ok ((1#64 <<< 62) ||| (BitVec.ofNat 64 sectors <<< cob) ||| BitVec.ofNat 64 off)
       | _, _ => .panic "l2.rs:from_mapping:unwrap"
     | .unallocated => .ok 0#64 : Outcome E64)
